@@ -715,6 +715,29 @@ func c04StreamProgress(c *core.Ctx, fn *ssa.Function) {
 		}
 		c.Viol("R4.5", "stream-compaction-covers-pending", c.Pos(cp), fmt.Sprintf("%s, while the buffer is compacted only up to %d pending bytes: with more pending bytes and the buffer full, Read is called with an empty slice on every iteration (the receive loop spins)", why, shiftMax))
 	default:
+		// the buffer has room for the largest block the de-framer accepts: a block whose
+		// announced length is the maximum plus its own type and length octets (up to 9 + 9).
+		// A smaller buffer can never hold such a block completely: no error fires, the
+		// buffer is full, and Read is called with an empty slice for ever.
+		core.Instrs(fn, func(in ssa.Instruction) {
+			var k int64
+			isC := false
+			switch x := in.(type) {
+			case *ssa.MakeSlice:
+				k, isC = core.ConstInt(x.Len)
+			case *ssa.Alloc: // make([]byte, <constant>) is lowered to new [N]byte + slice
+				if at, okA := core.Deref(x.Type()).Underlying().(*types.Array); okA && x.Heap {
+					if b, okB := at.Elem().Underlying().(*types.Basic); okB && b.Kind() == types.Uint8 {
+						k, isC = at.Len(), true
+					}
+				}
+			default:
+				return
+			}
+			if isC && haveReject {
+				c.Decide(k >= rejectMin+18, "R4.5", "stream-buffer-holds-largest-block", c.Pos(in), fmt.Sprintf("the receive buffer has %d bytes, the largest accepted block needs at most %d", k, rejectMin+17), fmt.Sprintf("the stream receive buffer has %d bytes, but a block announcing the largest accepted length needs up to %d with its type and length octets: such a block never completes, the buffer fills up, no error is raised and the receive loop reads into an empty slice for ever", k, rejectMin+17))
+			}
+		})
 		c.Decide(shiftMax+1 >= rejectMin, "R4.5", "stream-compaction-covers-pending", c.Pos(cp),
 			fmt.Sprintf("pending ≤ %d is compacted, pending ≥ %d is rejected: no value in between", shiftMax, rejectMin),
 			fmt.Sprintf("the receive buffer is compacted only while pending ≤ %d but the stream is rejected only from pending ≥ %d: for the values in between with the buffer full, Read is called with an empty slice on every iteration (the receive loop spins)", shiftMax, rejectMin))
@@ -871,6 +894,124 @@ func c04Round4(c *core.Ctx) {
 
 	// ---- R4.7b
 	reportOptionalDerefs(c, "R4.7b", []string{"dv/dv", "dv/table", "dv/nfdc", "std/sync", "std/schema/svs", "std/schema"}, nil, 4, "an advertisement or sync message that omits the element crashes the routing daemon / sync node (nil pointer dereference in a goroutine without recover)")
+
+	// ---- R4.12 a nil pointer must not be wrapped into a non-nil interface on the receive
+	// path: where a function hands out an interface value made from a pointer that can be
+	// nil (the result of a function with a `return nil`), the callers' `== nil` tests never
+	// fire and the method call that follows dereferences nil.
+	{
+		nMI := 0
+		mayReturnNil := func(f *ssa.Function) bool {
+			if f == nil || f.Blocks == nil {
+				return false
+			}
+			r := false
+			core.Instrs(f, func(in ssa.Instruction) {
+				if ret, ok := in.(*ssa.Return); ok && len(ret.Results) >= 1 && core.IsNilConst(core.Strip(ret.Results[0])) {
+					r = true
+				}
+			})
+			return r
+		}
+		for _, rel := range []string{"fw/face", "fw/fw", "fw/dispatch", "fw/table"} {
+			for _, fn := range p.FuncsIn(core.ModPath + "/" + rel) {
+				if strings.HasSuffix(p.File(fn.Pos()), "_test.go") {
+					continue
+				}
+				core.Instrs(fn, func(in ssa.Instruction) {
+					mi, ok := in.(*ssa.MakeInterface)
+					if !ok {
+						return
+					}
+					if _, isPtr := mi.X.Type().Underlying().(*types.Pointer); !isPtr {
+						return
+					}
+					cl, isCall := core.Strip(mi.X).(*ssa.Call)
+					if !isCall {
+						return
+					}
+					cal := cl.Call.StaticCallee()
+					if cal == nil || cal.Pkg == nil || !strings.HasPrefix(cal.Pkg.Pkg.Path(), core.ModPath) {
+						return
+					}
+					nMI++
+					if !mayReturnNil(cal) {
+						return
+					}
+					// wrapped only behind a != nil test of the pointer?
+					g := core.GateDeep(fn, []ssa.Instruction{in}, pos(atomNonNil("pointer != nil", mi.X)))
+					if g.OK && g.PassEdges > 0 {
+						return
+					}
+					c.Viol("R4.12", "nil-pointer-not-wrapped-into-interface:"+core.FuncName(fn), c.Pos(in), core.FuncName(fn)+" converts the result of "+core.FuncName(cal)+", which can be a nil pointer, into an interface value without testing it: the interface is then not nil, a caller's `== nil` guard does not fire and the method call behind it runs on a nil pointer (a crafted PIT token naming a thread that does not exist crashes the face's receive goroutine)")
+				})
+			}
+		}
+		c.Decide(true, "R4.12", "nil-pointer-not-wrapped-into-interface", "-", fmt.Sprintf("%d conversions of a repository function's pointer result into an interface inspected", nMI), "")
+	}
+
+	// ---- R4.2b a fragment that is refused changes nothing: on the edges on which
+	// reassemblePacket refuses a fragment (index outside the stored message), the store of
+	// partial messages is not written before the function returns — otherwise a spoofed or
+	// damaged frame destroys the message being reassembled
+	if ra := c.Fn("R4.2", "fw/face", "NDNLPLinkService", "reassemblePacket"); ra != nil {
+		isStoreWrite := func(in ssa.Instruction) bool {
+			if mu, ok := in.(*ssa.MapUpdate); ok {
+				if _, path := core.FieldPath(mu.Map); len(path) > 0 {
+					return true
+				}
+			}
+			if cl, ok := isBuiltinCall(in, "delete"); ok {
+				if _, path := core.FieldPath(cl.Call.Args[0]); len(path) > 0 {
+					return true
+				}
+			}
+			if cl, ok := isBuiltinCall(in, "clear"); ok {
+				if _, path := core.FieldPath(cl.Call.Args[0]); len(path) > 0 {
+					return true
+				}
+			}
+			return false
+		}
+		outside := &core.Atom{Name: "fragment index outside the stored message", Match: func(cond ssa.Value) (int, int) {
+			op, x, y, ok := core.Cmp(cond)
+			if !ok {
+				return 0, 0
+			}
+			l, isLen := core.LenOf(core.StripConv(y))
+			if !isLen {
+				return 0, 0
+			}
+			if _, isLk := core.Strip(l).(*ssa.Lookup); !isLk {
+				if _, path := core.FieldPath(l); len(path) == 0 {
+					return 0, 0
+				}
+			}
+			if _, isPar := core.StripConv(x).(*ssa.Parameter); !isPar {
+				return 0, 0
+			}
+			switch op {
+			case token.GEQ:
+				return 1, -1
+			case token.LSS:
+				return -1, 1
+			}
+			return 0, 0
+		}}
+		nRef, bad := 0, ""
+		for _, f := range core.EdgeFactsDeep(ra, outside) {
+			if !f.Holds || len(f.E.To.Preds) != 1 {
+				continue
+			}
+			nRef++
+			core.Instrs(f.E.To.Parent(), func(in ssa.Instruction) {
+				if isStoreWrite(in) && (in.Block() == f.E.To || f.E.To.Dominates(in.Block())) {
+					bad = c.Pos(in)
+				}
+			})
+		}
+		c.Decide(nRef > 0 && bad == "", "R4.2", "refused-fragment-changes-no-state", p.Pos(ra.Pos()), "the refusal of a fragment whose index lies outside the stored message writes nothing to the store", "reassemblePacket writes to the store of partial messages ("+bad+") on the path on which it refuses a fragment: a frame that is rejected (spoofed or damaged FragIndex) destroys the message being reassembled — a refused frame must change no state other than counters")
+	}
 
 	// ---- R4.10
 	if ra := c.Fn("R4.10", "fw/face", "NDNLPLinkService", "reassemblePacket"); ra != nil {
